@@ -515,7 +515,7 @@ def build_cases(prop, tier, rng):
         pairs = corpus_pairs(400) + structural_pairs() + gen_pairs(rng, ["g1", "g2", "g3", "g4", "g5", "g3", "g5", "g5z", "g10"], n)
         out.append(("release", plans.plan_core("C03", rng, pairs, dbg=False), False))
         out.append(("debug", plans.plan_core("C03", rng, pairs, dbg=True), True))
-        p32 = gen_pairs(rng, ["g1", "g4f32", "g2"], n // 3)
+        p32 = gen_pairs(rng, ["g1", "g4f32", "g2", "g5f32", "g20"], n // 3)
         out.append(("f32-release", plans.plan_core("C03", rng, p32, prec="f32"), False))
         out.append(("f32-debug", plans.plan_core("C03", rng, p32, prec="f32", dbg=True), True))
         out.append(("vertex-on-edge", plans.plan_core("C03", rng, gen_pairs(rng, ["g17"], 6000 if q else 60000), dbg=False, ops=["I", "D"]), False))
@@ -540,7 +540,7 @@ def build_cases(prop, tier, rng):
         out.append(("c09", plans.plan_c09(rng, corpus_pairs(80) + gen_pairs(rng, fams_all, n)), False))
     elif prop == "C10":
         n = 150 if q else 4000
-        pairs = structural_pairs() + gen_pairs(rng, ["g1", "g4f32", "g2", "g1", "g4f32", "g3"], n)
+        pairs = structural_pairs() + gen_pairs(rng, ["g1", "g4f32", "g2", "g1", "g4f32", "g3", "g5f32", "g20", "g20"], n)
         out.append(("f32", plans.plan_core("C10", rng, pairs, prec="f32"), False))
         out.append(("f32-vs-f64", extra.f32_f64_cases(rng, gen_pairs(rng, ["g1", "g2"], n // 2)), False))
         out.append(("f32-scaled", extra.scaled_cases(rng, gen_pairs(rng, ["g1", "g12", "g13", "g2"], n // 3)), False))
@@ -616,7 +616,12 @@ def run_replay(prop, path):
     if not text and d.get("scenario"):
         ok, log = runner.build_harness()
         import subprocess, re as _re
-        args = [runner.harness_bin(False)] + list(d["scenario"])
+        sc = list(d["scenario"])
+        if sc and sc[0] == "dev-build":
+            runner.build_harness_dev()
+            args = [runner.harness_bin_dev()] + sc[1:]
+        else:
+            args = [runner.harness_bin(False)] + sc
         try:
             p = subprocess.run(args, stdout=subprocess.PIPE, stderr=subprocess.PIPE, text=True, timeout=1800)
             rc, out, err = p.returncode, p.stdout, p.stderr
